@@ -1,12 +1,12 @@
 package main
 
 import (
-	"strings"
-	"time"
 	"fmt"
 	"reflect"
 	"strconv"
+	"strings"
 	"sync"
+	"time"
 	"unsafe"
 
 	"github.com/philpearl/plenc"
